@@ -1,4 +1,10 @@
 import PetgraphModel.Proofs.Traversal
+import PetgraphModel.Proofs.C08W2Topo
+import PetgraphModel.Proofs.C08W2Dfsv
+import PetgraphModel.Proofs.C08W2Edges
+import PetgraphModel.Proofs.C08W2Nest
+import PetgraphModel.Proofs.C08W2Reach
+import PetgraphModel.Proofs.C08W2Fuel
 /-
 C08 — `Dfs`, `Bfs`, `DfsPostOrder`, `Topo`, `depth_first_search` visit what graph theory says.
 Theorems over the mirror models of `Model/Traversal.lean` (tied to /repo by the exact
@@ -68,5 +74,209 @@ theorem C08_dfsv_times (v : View) (script : List Ctl) (fuel : Nat) (starts : Lis
     (s'.evs.reverse.filterMap fun e => match e with
       | .discover _ t => some t | .finish _ t => some t | _ => none) = List.range s'.time :=
   TravProofs.dfsv_times v script fuel starts s' r h
+
+
+/-! ### wave 2: `Topo` completeness -/
+
+/-- `Topo` emits every node of a well-formed view that is neither on nor downstream of a cycle
+(the hypothesis `topoAll … = some out` already says the run terminated within its fuel). -/
+theorem C08_topo_complete : C08_topo_complete_statement :=
+  fun v hv hp hwf inner outer out h x hx hno =>
+    TravProofs.topo_complete v hv hp hwf inner outer out h x hx hno
+
+/-- `Topo` on a well-formed view emits exactly the nodes that are neither on nor downstream of a cycle. -/
+theorem C08_topo_exact (v : View) (hv : ViewOk v) (hp : PredOk v) (hwf : v.g.WellFormed)
+    (inner outer : Nat) (out : List Nat) (h : topoAll v inner outer (Topo.new v) [] = some out)
+    (x : Nat) (hx : x ∈ v.g.nodes) :
+    x ∈ out ↔ ∀ c, Reach1 v.g c c → ¬ Reach v.g c x :=
+  ⟨fun hxo c hc hcx => C08_topo_no_cyclic v hv hp inner outer out h c x hc hcx hxo,
+   fun hno => C08_topo_complete v hv hp hwf inner outer out h x hx hno⟩
+
+/-! ### wave 2: `depth_first_search` event stream
+
+Vocabulary (all in `Proofs/C08W2Events.lean`, plain functions of a *forward* event list `L`):
+`discOf L` / `finOf L` = the nodes with a `Discover` / `Finish` event in `L`;
+`openOf L` = the stack of open calls after `L` (`Discover n` pushes `n`, `Finish` pops), innermost
+first; `nestRun [] L` = strict bracket matching (`Finish n` must close the innermost open `n`);
+`edgeOf e` = the `(source, target)` of an edge event; `fromNode u e` = "`e` is an edge out of `u` or
+`Finish(u)`".  The event with 0-based index `k` is answered `ctlAt script k`; in
+`L = pre ++ e :: post` the event `e` has index `pre.length` and `pre` is the history at that moment.
+
+All of them are corollaries of one simulation theorem (`TravProofs.dfsSearch_post`): the history of
+every run of the model is accepted by the deterministic reference machine `TravProofs.step`, whose
+state carries the recursion stack (each open call with the neighbours it still has to examine). -/
+
+/-- No node is discovered twice or finished twice, only discovered nodes are finished, and the final
+`discovered` / `finished` maps are exactly the nodes with a Discover / Finish event. -/
+theorem C08_dfsv_once (v : View) (script : List Ctl) (fuel : Nat) (starts : List Nat) (s' : VS) (r : Res)
+    (h : dfsSearch v script fuel starts {} = (s', r)) :
+    (discOf s'.evs.reverse).Nodup ∧ (finOf s'.evs.reverse).Nodup ∧
+    (∀ n, n ∈ finOf s'.evs.reverse → n ∈ discOf s'.evs.reverse) ∧
+    s'.disc = (discOf s'.evs.reverse).reverse ∧ s'.fin = (finOf s'.evs.reverse).reverse :=
+  TravProofs.dfsv_once h
+
+/-- Well-nestedness: the Discover/Finish events form a well-parenthesised word (every `Finish n`
+closes the innermost open `Discover n`); the calls still open at the end are `openOf`; when the
+result is `Continue` none is open, so — with `C08_dfsv_once` — every Discover has exactly one
+matching later Finish. -/
+theorem C08_dfsv_nested (v : View) (script : List Ctl) (fuel : Nat) (starts : List Nat) (s' : VS) (r : Res)
+    (h : dfsSearch v script fuel starts {} = (s', r)) :
+    nestRun [] s'.evs.reverse = some (openOf s'.evs.reverse) ∧
+    (r = .cont → openOf s'.evs.reverse = []) ∧
+    (r = .cont → ∀ n, n ∈ discOf s'.evs.reverse → n ∈ finOf s'.evs.reverse) :=
+  TravProofs.dfsv_nested h
+
+/-- `Discover(n)`: `n` was undiscovered; it is a root (no call open, `n` one of the start nodes) or
+it immediately follows `TreeEdge(u, n)` answered `Continue`. -/
+theorem C08_dfsv_discover (v : View) (script : List Ctl) (fuel : Nat) (starts : List Nat) (s' : VS) (r : Res)
+    (h : dfsSearch v script fuel starts {} = (s', r)) (pre post : List Ev) (n t : Nat)
+    (hL : s'.evs.reverse = pre ++ .discover n t :: post) :
+    n ∉ discOf pre ∧
+    ((openOf pre = [] ∧ n ∈ starts) ∨
+     (∃ u pre', pre = pre' ++ [.tree u n] ∧ ctlAt script pre'.length = .cont)) :=
+  TravProofs.dfsv_discover h hL
+
+/-- `Finish(n)` closes the innermost open call, which is `n` (discovered, not yet finished). -/
+theorem C08_dfsv_finish (v : View) (script : List Ctl) (fuel : Nat) (starts : List Nat) (s' : VS) (r : Res)
+    (h : dfsSearch v script fuel starts {} = (s', r)) (pre post : List Ev) (n t : Nat)
+    (hL : s'.evs.reverse = pre ++ .finish n t :: post) :
+    (∃ rest, openOf pre = n :: rest) ∧ n ∈ discOf pre ∧ n ∉ finOf pre :=
+  TravProofs.dfsv_finish h hL
+
+/-- `TreeEdge(u, w)`: `u` is the innermost open call, `w` is a successor of `u` and undiscovered at
+that moment; if the visitor answers `Continue`, `Discover(w)` follows immediately (the stream can
+end right there only when the model ran out of fuel). -/
+theorem C08_dfsv_tree (v : View) (script : List Ctl) (fuel : Nat) (starts : List Nat) (s' : VS) (r : Res)
+    (h : dfsSearch v script fuel starts {} = (s', r)) (pre post : List Ev) (u w : Nat)
+    (hL : s'.evs.reverse = pre ++ .tree u w :: post) :
+    w ∉ discOf pre ∧ (∃ rest, openOf pre = u :: rest) ∧ w ∈ v.succ u ∧
+    (ctlAt script pre.length = .cont →
+      (∃ t post', post = .discover w t :: post') ∨ (post = [] ∧ r = .fuel)) :=
+  TravProofs.dfsv_tree h hL
+
+/-- `BackEdge(u, w)`: `w` is discovered and not finished, and it is on the recursion stack: `u` is
+the innermost open call and `w` is `u` itself (self-loop) or one of the calls enclosing it. -/
+theorem C08_dfsv_back (v : View) (script : List Ctl) (fuel : Nat) (starts : List Nat) (s' : VS) (r : Res)
+    (h : dfsSearch v script fuel starts {} = (s', r)) (pre post : List Ev) (u w : Nat)
+    (hL : s'.evs.reverse = pre ++ .back u w :: post) :
+    w ∈ discOf pre ∧ w ∉ finOf pre ∧ (∃ rest, openOf pre = u :: rest ∧ w ∈ u :: rest) ∧
+    w ∈ v.succ u :=
+  TravProofs.dfsv_back h hL
+
+/-- `CrossForwardEdge(u, w)`: `w` is finished (so not on the recursion stack). -/
+theorem C08_dfsv_cross (v : View) (script : List Ctl) (fuel : Nat) (starts : List Nat) (s' : VS) (r : Res)
+    (h : dfsSearch v script fuel starts {} = (s', r)) (pre post : List Ev) (u w : Nat)
+    (hL : s'.evs.reverse = pre ++ .cross u w :: post) :
+    w ∈ finOf pre ∧ (∃ rest, openOf pre = u :: rest ∧ w ∉ u :: rest) ∧ w ∈ v.succ u :=
+  TravProofs.dfsv_cross h hL
+
+/-- "exactly when": the class of an edge event is a function of the state of its target at that
+moment — tree iff undiscovered, back iff discovered and unfinished, cross/forward iff finished. -/
+theorem C08_dfsv_classify (v : View) (script : List Ctl) (fuel : Nat) (starts : List Nat) (s' : VS) (r : Res)
+    (h : dfsSearch v script fuel starts {} = (s', r)) (pre post : List Ev) (e : Ev) (u w : Nat)
+    (hL : s'.evs.reverse = pre ++ e :: post) (he : edgeOf e = some (u, w)) :
+    e = if w ∉ discOf pre then .tree u w else if w ∉ finOf pre then .back u w else .cross u w :=
+  TravProofs.dfsv_classify h hL he
+
+/-- `Break` stops immediately: no event after the one answered `Break`, and the result is `Break`. -/
+theorem C08_dfsv_break (v : View) (script : List Ctl) (fuel : Nat) (starts : List Nat) (s' : VS) (r : Res)
+    (h : dfsSearch v script fuel starts {} = (s', r)) (pre post : List Ev) (e : Ev)
+    (hL : s'.evs.reverse = pre ++ e :: post) (hc : ctlAt script pre.length = .brk) :
+    post = [] ∧ r = .brk :=
+  TravProofs.dfsv_break h hL hc
+
+/-- the result is `Break` exactly when the visitor answered `Break` to the last event. -/
+theorem C08_dfsv_result_break (v : View) (script : List Ctl) (fuel : Nat) (starts : List Nat) (s' : VS) (r : Res)
+    (h : dfsSearch v script fuel starts {} = (s', r)) :
+    r = .brk ↔ ∃ pre e, s'.evs.reverse = pre ++ [e] ∧ ctlAt script pre.length = .brk :=
+  TravProofs.dfsv_result_brk h
+
+/-- `Prune` on `Discover(u)` goes straight to `Finish(u)` (no edge of `u` is examined). -/
+theorem C08_dfsv_prune_discover (v : View) (script : List Ctl) (fuel : Nat) (starts : List Nat) (s' : VS) (r : Res)
+    (h : dfsSearch v script fuel starts {} = (s', r)) (pre post : List Ev) (u t : Nat)
+    (hL : s'.evs.reverse = pre ++ .discover u t :: post) (hc : ctlAt script pre.length = .prune) :
+    ∃ post', post = .finish u (t + 1) :: post' :=
+  TravProofs.dfsv_prune_discover h hL hc
+
+/-- `Prune` on `TreeEdge(u, w)` skips the subtree: `w` is not entered; the next event (there is one
+unless the model ran out of fuel) is the next edge out of `u` or `Finish(u)`. -/
+theorem C08_dfsv_prune_tree (v : View) (script : List Ctl) (fuel : Nat) (starts : List Nat) (s' : VS) (r : Res)
+    (h : dfsSearch v script fuel starts {} = (s', r)) (pre post : List Ev) (u w : Nat)
+    (hL : s'.evs.reverse = pre ++ .tree u w :: post) (hc : ctlAt script pre.length = .prune) :
+    (post = [] ∧ r = .fuel) ∨ ∃ e post', post = e :: post' ∧ fromNode u e :=
+  TravProofs.dfsv_prune_tree h hL hc
+
+/-- on back and cross/forward edges `Prune` is the same as `Continue`: the loop over the neighbours
+of `u` goes on. -/
+theorem C08_dfsv_nontree_next (v : View) (script : List Ctl) (fuel : Nat) (starts : List Nat) (s' : VS) (r : Res)
+    (h : dfsSearch v script fuel starts {} = (s', r)) (pre post : List Ev) (e : Ev) (u w : Nat)
+    (hL : s'.evs.reverse = pre ++ e :: post) (he : e = .back u w ∨ e = .cross u w)
+    (hc : ctlAt script pre.length ≠ .brk) :
+    (post = [] ∧ r = .fuel) ∨ ∃ e' post', post = e' :: post' ∧ fromNode u e' :=
+  TravProofs.dfsv_nontree_next h hL he hc
+
+/-- `Prune` on a `Finish` event is the documented panic: nothing follows and the result says so;
+conversely that result only arises this way. -/
+theorem C08_dfsv_prune_finish (v : View) (script : List Ctl) (fuel : Nat) (starts : List Nat) (s' : VS) (r : Res)
+    (h : dfsSearch v script fuel starts {} = (s', r)) :
+    (∀ pre post n t, s'.evs.reverse = pre ++ .finish n t :: post → ctlAt script pre.length = .prune →
+      post = [] ∧ r = .panicPruneFinish) ∧
+    (r = .panicPruneFinish ↔
+      ∃ pre n t, s'.evs.reverse = pre ++ [.finish n t] ∧ ctlAt script pre.length = .prune) :=
+  ⟨fun _ _ _ _ hL hc => TravProofs.dfsv_prune_finish h hL hc, TravProofs.dfsv_result_panic h⟩
+
+
+/-- The simulation all the clauses above are read off: the forward event list of every run is
+accepted by the deterministic reference machine (`TravProofs.step`: recursion stack with the
+neighbours still to examine, discovered / finished sets, clock, and the obligation created by the
+last control value), the final machine state carries the model's visit maps and clock, and its mode
+matches the result (`ResMode`: `Continue` ⇒ idle with an empty stack, `Break` ⇒ dead, panic ⇒ panic,
+out of fuel ⇒ still running). -/
+theorem C08_dfsv_simulation (v : View) (script : List Ctl) (fuel : Nat) (starts : List Nat) (s' : VS) (r : Res)
+    (h : dfsSearch v script fuel starts {} = (s', r)) :
+    ∃ m, run v starts script MS.init 0 s'.evs.reverse = some m ∧
+      m.disc = s'.disc ∧ m.fin = s'.fin ∧ m.time = s'.time ∧ ResMode r m :=
+  TravProofs.dfsv_final h
+
+/-- On `Continue` the whole event stream is a well-parenthesised word in the textbook sense
+(`Balanced`: `ε` | neutral edge event · balanced | `Discover n` · balanced · `Finish n` · balanced);
+`TravProofs.balanced_iff_nest` shows the grammar and the bracket-matching run `nestRun` agree. -/
+theorem C08_dfsv_balanced (v : View) (script : List Ctl) (fuel : Nat) (starts : List Nat) (s' : VS)
+    (h : dfsSearch v script fuel starts {} = (s', .cont)) : Balanced s'.evs.reverse :=
+  TravProofs.dfsv_balanced h
+
+/-- Every edge of a node that was not pruned is reported exactly once, in neighbour order: between
+`Discover(u)` (not answered `Prune`) and `Finish(u)` the targets of the edge events with source `u`
+(`uEdges u`) are exactly `v.succ u`.  (With `C08_dfsv_classify` this fixes every edge event.) -/
+theorem C08_dfsv_edges_complete (v : View) (script : List Ctl) (fuel : Nat) (starts : List Nat) (s' : VS) (r : Res)
+    (h : dfsSearch v script fuel starts {} = (s', r)) (pre mid post : List Ev) (u t t' : Nat)
+    (hL : s'.evs.reverse = pre ++ .discover u t :: (mid ++ .finish u t' :: post))
+    (hc : ctlAt script pre.length ≠ .prune) : uEdges u mid = v.succ u :=
+  TravProofs.dfsv_edges_complete h hL hc
+
+/-- Every discovered node is reachable from one of the start nodes (any script, any result). -/
+theorem C08_dfsv_reach_sound (v : View) (hv : ViewOk v) (script : List Ctl) (fuel : Nat) (starts : List Nat)
+    (s' : VS) (r : Res) (h : dfsSearch v script fuel starts {} = (s', r))
+    (x : Nat) (hx : x ∈ discOf s'.evs.reverse) : ∃ s, s ∈ starts ∧ Reach v.g s x :=
+  TravProofs.dfsv_reach_sound hv h x hx
+
+/-- With a visitor that always answers `Continue` (and result `Continue`), a Discover/Finish pair is
+reported for exactly the nodes reachable from the start nodes. -/
+theorem C08_dfsv_reach_exact (v : View) (hv : ViewOk v) (script : List Ctl) (fuel : Nat) (starts : List Nat)
+    (s' : VS) (h : dfsSearch v script fuel starts {} = (s', .cont))
+    (hall : ∀ k, k < s'.evs.length → ctlAt script k = .cont) (x : Nat) :
+    (x ∈ discOf s'.evs.reverse ↔ ∃ s, s ∈ starts ∧ Reach v.g s x) ∧
+    (x ∈ finOf s'.evs.reverse ↔ ∃ s, s ∈ starts ∧ Reach v.g s x) := by
+  have h1 := TravProofs.dfsv_reach_exact hv h hall x
+  refine ⟨h1, ⟨fun hf => h1.mp ((TravProofs.dfsv_once h).2.2.1 x hf),
+    fun hr => (TravProofs.dfsv_nested h).2.2 rfl x (h1.mpr hr)⟩⟩
+
+/-- Fuel sufficiency: on a consistent view of a well-formed graph, with start nodes among the
+graph's nodes and at least `dfsFuel v = 1 + Σ_{u ∈ nodes} (|succ u| + 1)` fuel, the model never
+reports `Res.fuel` — so the `r = .fuel` alternatives above do not occur. -/
+theorem C08_dfsv_fuel (v : View) (hv : ViewOk v) (hwf : v.g.WellFormed) (script : List Ctl) (fuel : Nat)
+    (starts : List Nat) (hst : ∀ x, x ∈ starts → x ∈ v.g.nodes) (hf : dfsFuel v ≤ fuel) :
+    (dfsSearch v script fuel starts {}).2 ≠ .fuel :=
+  TravProofs.dfsv_fuel hv hwf hst hf
 
 end PetgraphModel.C08T
